@@ -226,6 +226,24 @@ StepResult(st, o, c, sc) ==
                  IF Failed(r.S) THEN (IF r.S.err.name = "wide" THEN "" ELSE IF o.status = 0 \/ o.err_empty THEN "a failing expression gave exit status 0 or no message" ELSE "")
                  ELSE IF o.status # 0 THEN "exit status " \o ToString(o.status) \o " for a valid expression"
                  ELSE IF o.out # (IF IsNull(r.v) THEN "null" ELSE PrintText(r.v)) THEN "bloc -e printed " \o o.out \o ", the value is " \o PrintText(r.v) ELSE ""
+            ELSE IF st.mode = "save" /\ Has(st, "ast") THEN
+                 \* the program is entered statement by statement, saved with the `save` command, and the saved file is run as a script
+                 LET r == RunCliInteractive(st.ast, S0)
+                     S == RunProgram(st.ast, S0) IN
+                 IF o.status # 0 THEN "interactive mode ended with status " \o ToString(o.status)
+                 ELSE IF o.out # r.S.out THEN "interactive mode printed something else; expected: " \o r.S.out
+                 ELSE IF o.saved_text = "" THEN "the save command wrote nothing"
+                 ELSE IF Failed(S) THEN "UNDECIDED"
+                 ELSE IF o.saved_status # 0 THEN "the saved program is rejected or fails (exit status " \o ToString(o.saved_status) \o ")"
+                 ELSE IF o.saved_out # S.out \o RvText(S) THEN "the saved program prints something else; expected: " \o S.out \o RvText(S)
+                 ELSE ""
+            ELSE IF st.mode = "save" /\ Has(st, "relsave") THEN
+                 IF o.status # 0 THEN "interactive mode ended with status " \o ToString(o.status)
+                 ELSE IF o.nerr # 0 \/ o.nperr # 0 THEN ""   \* the session rejected (part of) the text: nothing is claimed about what was saved
+                 ELSE IF o.saved_text = "" THEN "the save command wrote nothing"
+                 ELSE IF o.saved_status # 0 THEN "the saved program is rejected or fails (exit status " \o ToString(o.saved_status) \o ")"
+                 ELSE IF o.saved_out # o.out THEN "the saved program prints something else than the session it was saved from"
+                 ELSE ""
             ELSE IF st.mode = "inter" /\ Has(st, "ast") THEN
                  LET r == RunCliInteractive(st.ast, S0) IN
                  IF o.status # 0 THEN "interactive mode ended with status " \o ToString(o.status)
@@ -301,7 +319,7 @@ StepResult(st, o, c, sc) ==
                   ELSE LET b == sc.obs[st.same_run_as] IN
                        IF o.oc # b.oc \/ o.no # b.no THEN "the same text compiles/runs differently when delivered differently: " \o o.oc \o " vs " \o b.oc
                        ELSE IF o.out # b.out THEN "the same text prints something else when delivered differently"
-                       ELSE IF o.unp # b.unp THEN "the compiled program differs when the text is delivered differently" ELSE ""]
+                       ELSE IF ~Has(st, "nounp") /\ o.unp # b.unp THEN "the compiled program differs when the text is delivered differently" ELSE ""]
     [] st.op = "unparse" ->
          \* text produced from a compiled program; with same_text_as: producing text from the reloaded program gives the same text
          [C |-> c, why |-> IF Has(st, "same_text_as") /\ o.text # sc.obs[st.same_text_as].text
